@@ -337,8 +337,12 @@ class Rewriter:
             site += 1
             out.append(text[last:mm.start()])
             cond = None
-            if spec is not None and part == 'body' and spec.panics:
-                cond = spec.panics.get(site, spec.panics.get(0))
+            if spec is not None and part == 'body':
+                # a function whose contract states no rejection condition had no panic! when the contract was written:
+                # a panic that appears in it later may never be reached (`only_if false`)
+                cond = spec.panics.get(site, spec.panics.get(0)) if spec.panics else 'false'
+                if cond is None:
+                    cond = 'false'        # a site beyond those the contract names
             if cond is not None:
                 # the panic is reachable only under the stated rejection condition (obligation: callee precondition)
                 out.append('ohsl_panic_when(Ghost((%s)), ' % cond)
